@@ -1,5 +1,6 @@
-"""C06 (partial): the in-band occupancy marker never receives an unsanitised hash (R-TAINT-S);
-every map operation routes every HashMapStorage variant to a back end that consumes the key."""
+"""C06 (partial): the in-band occupancy marker never receives an unsanitised hash (R-TAINT-S); enumerators exclude
+every sentinel; insertion probes search past deleted slots (R-PROBE); every function maps a hash to a slot the same
+way (R-SIBLING.index); every map operation routes every HashMapStorage variant to a back end that consumes the key."""
 from vlib import fixtures
 from rules import sentinel, variant
 
@@ -9,11 +10,13 @@ OPS = ("::insert", "::get", "::get_mut", "::remove", "::clear", "::len")
 
 def run(ctx):
     fx = ctx.facts("default")
-    fixtures.run(ctx, ['variant', 'probe'])
+    fixtures.run(ctx, ['variant', 'probe', 'sibling'])
     sents, _ = sentinel.run(ctx, fx, FILE, "hash_map::zipora_hash_map::HashEntry::hash")
     sentinel.completeness(ctx, fx, FILE, "hash_map::zipora_hash_map::HashEntry::hash", sents)
     sentinel.probe_past_tombstones(ctx, fx, FILE, "hash_map::zipora_hash_map::HashEntry::hash", sents)
     ctx.floor("R-PROBE.probes", 1)
+    sentinel.index_reduction_agreement(ctx, fx, FILE, "hash_map::zipora_hash_map::HashEntry::hash")
+    ctx.floor("R-SIBLING.index.sites", 6)
     ctx.floor("R-TAINT-S.complete.enumerators", 1)
     ctx.floor("R-TAINT-S.sources", 4)
     ctx.floor("R-TAINT-S.sinks", 5)
@@ -27,11 +30,16 @@ def run(ctx):
                 "SmallMap::storage", rule="R-VARIANT.smallmap", panic_only=True)
     ctx.floor("R-VARIANT.smallmap.operations", 5)
     return dict(
-        level_note="decides two structural clauses of C06 (sentinel sanitisation of caller-supplied hashes; per-strategy "
-                   "routing). Probe sequences, tombstone reuse, resize and iteration completeness are value-level and NOT decided.",
+        level_note="decides five structural clauses of C06 (sentinel sanitisation of caller-supplied hashes incl. enumerators; "
+                   "insertion never settles on a deleted slot before the probe path is exhausted; all hash-to-slot "
+                   "reductions agree; per-strategy routing). Probe-sequence values, resize contents and iteration order are "
+                   "value-level and NOT decided.",
         explanation="R-TAINT-S: sentinels are read from the comparisons against HashEntry.hash; every def-use path from "
                     "Hasher::finish to a store into / comparison with that field must pass a function that compares its "
-                    "argument with every sentinel (inferred structurally). R-VARIANT as in C05 over HashMapStorage.",
+                    "argument with every sentinel (inferred structurally). R-PROBE: from the 'marker == tombstone' edge no store "
+                    "into the marker is reachable within the same loop iteration without first taking the 'marker == empty' edge. "
+                    "R-SIBLING.index: the binary operator applied to `hash as usize` (BitAnd vs Rem) is the same in every "
+                    "function of the file. R-VARIANT as in C05 over HashMapStorage.",
         trusted_base=["rustc nightly MIR", "zfacts", "rules/sentinel.py", "rules/variant.py"],
         rule_text="obligation = (hash sink) | (operation, storage variant)",
     )
